@@ -575,6 +575,7 @@ def execute(plan):
             modobj.datetime = clock
     w.layouts = {}
     model = {}
+    kept = []
     objs = {}
     events, violations = [], []
     probes = {}
@@ -751,6 +752,9 @@ def execute(plan):
                 ev["out"] = res[0] + (":" + type(res[5]).__name__ if res[5] is not None else "") + (":warned" if res[4] else "")
                 if res[1] is not None:
                     ev["fp"] = core.fp_array(res[1])
+                    # the caller keeps what a read returned; later reads and writes must not change it
+                    if len(kept) < 6:
+                        kept.append((i, res[1], res[1].copy()))
                 if op.get("eio"):
                     if res[0] == "ok":
                         viol("eio-swallowed", i, "codev" if entry["fmt"] == "codev" else "zygo", "none")
@@ -806,6 +810,10 @@ def execute(plan):
                                             str(ev.get("out", ""))[:24], mp.get("vals", ""), mp.get("nan", ""),
                                             "1xN" if mp and 1 in mp["shape"] else "")))
 
+    for (ri, live, snap) in kept:
+        same = live.shape == snap.shape and bool(np.all((live == snap) | (np.isnan(live) & np.isnan(snap))))
+        if not same:
+            viol("result-mutated", ri, "any", "none", what="an array returned by an earlier read was changed by later calls")
     faults = dict(w.disk.fired)
     extra["simulated_clock_span_s"] = abs(clock.now_s - clock.t0)
     extra["clock_reads"] = clock.reads
